@@ -480,6 +480,7 @@ func DeriveAndStoreApplicationTrafficSecrets(state *dtlsstate.State13, transcrip
 	state.KeySchedule.ClientApplicationTrafficSecret0 = secrets.Client
 	state.KeySchedule.ServerApplicationTrafficSecret0 = secrets.Server
 	state.KeySchedule.ExporterMasterSecret = exporterMasterSecret
+	dtlsstate.VerifSecretDerived("exporter_master", exporterMasterSecret)
 
 	return nil
 }
